@@ -114,7 +114,13 @@ func c14Worlds() []c14World {
 		}, nil, big),
 		mk("cstream-proto-bidi", wire.ConnectStream, "Bidi", "proto", "", false, echo(`{"name":"w3a"}`, `{"name":"w3b"}`), nil, small, other),
 	}
-	return []c14World{toGRPC, toConnect, toWeb}
+	// a Connect target with request compression: a GET issued toward the backend carries a compressed message in its URL
+	toConnectGz := c14World{name: "target=Connect/proto/gzip", cfg: world.Config{Protocols: []vanguard.Protocol{vanguard.ProtocolConnect}, Codecs: []string{"proto"}, Compression: []string{"gzip"}, MaxMsg: 4000}}
+	toConnectGz.rpcs = []c14RPC{
+		mk("cget-json-gzip", wire.ConnectGet, "Pure", "json", "gzip", true, echo(`{"name":"z1"}`), nil, small),
+		mk("cunary-json-gzip", wire.ConnectUnary, "Unary", "json", "gzip", true, echo(`{"name":"z2","extraText":"`+strings.Repeat("Z", 200)+`"}`), nil, big),
+	}
+	return []c14World{toGRPC, toConnect, toWeb, toConnectGz}
 }
 
 type c14Outcome struct {
@@ -190,7 +196,9 @@ func c14Exec(w c14World, idx []int, prefix []int, solo bool) (*sched.Run, []c14O
 		}
 	})
 	for _, p := range verifsync.Pools() {
-		stats = append(stats, p.Stats())
+		st := p.Stats()
+		st.WritesAfterPut += p.AuditPoison()
+		stats = append(stats, st)
 	}
 	verifsync.SetRegistry(false)
 	verifsync.ResetRegistry()
@@ -361,6 +369,11 @@ func c14Judge(w c14World, wi int, idx []int, solo map[string]c14Outcome, run *sc
 	for _, st := range stats {
 		if st.DoublePuts > 0 {
 			fail("C14.pool-double-put", "a pool element was Put while it already was in the pool (%d times): two later Gets would hand the same element to two holders", st.DoublePuts)
+		}
+	}
+	for _, st := range stats {
+		if st.WritesAfterPut > 0 {
+			fail("C14.write-after-put", "a pooled buffer was written to after it had been returned to the pool (%d buffers): with the real sync.Pool that write can land in another RPC's buffer", st.WritesAfterPut)
 		}
 	}
 	for k, i := range idx {
